@@ -204,6 +204,7 @@ End Elect.
 Section Refined.
   Variables B S V D H T W E : Type.
   Variable kind_of : B -> kind.
+  Variable guards : kind -> guard_set.
   Variable fees_present : B -> bool.
   Variable expected_calldata : B -> Z -> Z -> V -> list S -> D.
   Variable expected_deploy : B -> D.
@@ -220,28 +221,29 @@ Section Refined.
   Variable snapshot_of : W -> snapshot.
 
   Hypothesis H_eqb_refl : forall h, H_eqb h h = true.
+  Hypothesis guards_full : forall k, guards k = full_guards.
   Hypothesis T_eq_dec : forall a b : T, {a = b} + {a <> b}.
   Hypothesis keqb_spec : forall a b, keqb a b = true <-> a = b.
 
   Notation astate := (state B S V H T W).
-  Notation astep := (step B S V D H T W E kind_of fees_present expected_calldata expected_deploy D_eqb H_eqb
+  Notation astep := (step B S V D H T W E kind_of guards fees_present expected_calldata expected_deploy D_eqb H_eqb
                        tx_hash tx_data valset_at compass_present apply_effect on_error_proof).
-  Notation arun_from := (run_from B S V D H T W E kind_of fees_present expected_calldata expected_deploy D_eqb H_eqb
+  Notation arun_from := (run_from B S V D H T W E kind_of guards fees_present expected_calldata expected_deploy D_eqb H_eqb
                            tx_hash tx_data valset_at compass_present apply_effect on_error_proof).
-  Notation arun := (run B S V D H T W E kind_of fees_present expected_calldata expected_deploy D_eqb H_eqb
+  Notation arun := (run B S V D H T W E kind_of guards fees_present expected_calldata expected_deploy D_eqb H_eqb
                       tx_hash tx_data valset_at compass_present apply_effect on_error_proof).
   Notation rstate := (@rstate B S V H T W).
   Notation rop := (@rop B S T W E K).
-  Notation rstep := (rstep B S V D H T W E kind_of fees_present expected_calldata expected_deploy D_eqb H_eqb
+  Notation rstep := (rstep B S V D H T W E kind_of guards fees_present expected_calldata expected_deploy D_eqb H_eqb
                        tx_hash tx_data valset_at compass_present apply_effect on_error_proof keqb hash enc snapshot_of).
-  Notation rrun_from := (rrun_from B S V D H T W E kind_of fees_present expected_calldata expected_deploy D_eqb H_eqb
+  Notation rrun_from := (rrun_from B S V D H T W E kind_of guards fees_present expected_calldata expected_deploy D_eqb H_eqb
                            tx_hash tx_data valset_at compass_present apply_effect on_error_proof keqb hash enc snapshot_of).
-  Notation rrun := (rrun B S V D H T W E kind_of fees_present expected_calldata expected_deploy D_eqb H_eqb
+  Notation rrun := (rrun B S V D H T W E kind_of guards fees_present expected_calldata expected_deploy D_eqb H_eqb
                       tx_hash tx_data valset_at compass_present apply_effect on_error_proof keqb hash enc snapshot_of).
-  Notation flatten := (flatten B S V D H T W E kind_of fees_present expected_calldata expected_deploy D_eqb H_eqb
+  Notation flatten := (flatten B S V D H T W E kind_of guards fees_present expected_calldata expected_deploy D_eqb H_eqb
                          tx_hash tx_data valset_at compass_present apply_effect on_error_proof keqb hash enc snapshot_of).
   Notation elected := (elected B S V H T W keqb hash enc snapshot_of).
-  Notation rendblock_ids := (rendblock_ids B S V D H T W E kind_of fees_present expected_calldata expected_deploy D_eqb H_eqb
+  Notation rendblock_ids := (rendblock_ids B S V D H T W E kind_of guards fees_present expected_calldata expected_deploy D_eqb H_eqb
                                tx_hash tx_data valset_at compass_present apply_effect on_error_proof keqb hash enc snapshot_of).
   Notation ainv := (inv B S V H T W tx_hash).
   Notation reports_of s id := (get_reports T id (evid s)).
@@ -277,8 +279,8 @@ Section Refined.
                              effects _ _ _ _ _ _ (astep (abs s) b) = effects _ _ _ _ _ _ (abs s) ++ [e] /\
                              accepted_now B S V D H T W kind_of fees_present expected_calldata expected_deploy D_eqb H_eqb
                                tx_hash tx_data valset_at compass_present (abs s) (e_msg _ _ _ _ e) e)).
-    { intros b. destruct (step_spec B S V D H T W E kind_of fees_present expected_calldata expected_deploy D_eqb H_eqb
-                            tx_hash tx_data valset_at compass_present apply_effect on_error_proof H_eqb_refl (abs s) b Hinv)
+    { intros b. destruct (step_spec B S V D H T W E kind_of guards fees_present expected_calldata expected_deploy D_eqb H_eqb
+                            tx_hash tx_data valset_at compass_present apply_effect on_error_proof H_eqb_refl guards_full (abs s) b Hinv)
         as [Hi He]. split; [split; [exact Hi | exact Hnd] | exact He]. }
     destruct o as [b|id b|id sg|id g|id v|id|f|id v p|id env ord];
       try (cbn [AttestEvidence.rstep base_op];
@@ -293,12 +295,12 @@ Section Refined.
     - (* attestRouter *)
       cbn [AttestEvidence.rstep].
       set (w := elected s id ord).
-      destruct (step_spec B S V D H T W E kind_of fees_present expected_calldata expected_deploy D_eqb H_eqb
-                  tx_hash tx_data valset_at compass_present apply_effect on_error_proof H_eqb_refl (abs s)
+      destruct (step_spec B S V D H T W E kind_of guards fees_present expected_calldata expected_deploy D_eqb H_eqb
+                  tx_hash tx_data valset_at compass_present apply_effect on_error_proof H_eqb_refl guards_full (abs s)
                   (OpEvidence _ _ _ _ _ id w) Hinv) as [Hi1 [He1|(e & env' & Hb & _)]]; [|discriminate Hb].
       set (s1 := astep (abs s) (OpEvidence _ _ _ _ _ id w)) in *.
-      destruct (step_spec B S V D H T W E kind_of fees_present expected_calldata expected_deploy D_eqb H_eqb
-                  tx_hash tx_data valset_at compass_present apply_effect on_error_proof H_eqb_refl s1
+      destruct (step_spec B S V D H T W E kind_of guards fees_present expected_calldata expected_deploy D_eqb H_eqb
+                  tx_hash tx_data valset_at compass_present apply_effect on_error_proof H_eqb_refl guards_full s1
                   (OpAttest _ _ _ _ _ id env) Hi1) as [Hi2 [He2|(e & env' & Hb & Hq & He2 & Hacc)]].
       + split; [split; [exact Hi2 | exact Hnd]|]. left. cbn [abs]. now rewrite He2.
       + split; [split; [exact Hi2 | exact Hnd]|]. right. inversion Hb as [[Hid Henv]]. subst env'. subst id.
